@@ -10,7 +10,8 @@
    Not modelled: I/O errors other than the failure of os.Rename on an occupied target, uint64
    and int64 wrap-around, symbolic links, changes made by other goroutines or processes while
    clean runs other than markDir calls between two iterations of the eviction loop (see `run` below;
-   in `clean` itself the marks do not change),
+   in `clean` itself the marks do not change) and the statements of a Store of the process between two
+   steps of clean (see `prun` below),
    sort.Slice for more than 12 entries (the theorems hold for any permutation; the executable
    model uses the insertion sort Go uses up to 12 elements). *)
 From PlzV Require Import Base.Harness Gen.CacheNames.
@@ -413,13 +414,156 @@ Fixpoint some_from (f : nat -> bool) (k n : nat) : bool :=
   | S n' => if f k then true else some_from f (S k) n'
   end.
 
+(* ---- a Store of the process while clean runs ---------------------------------------------------
+
+   Store(target, key, files) in an uncompressed cache, statement by statement as gotrans lists them in
+   Gen.CacheNames.store_body / store_files_body, one output = one plain file directly inside the entry.
+   storeFile is written out by hand: ensureStoreReady (MkdirAll of the temporary directory, RemoveAll of
+   the file) and RecursiveLink (which, falling back to a copy, creates missing directories again).
+   Not modelled: outputs that are directories or lie in sub-directories, I/O errors other than MkdirAll
+   hitting a file and os.Rename hitting an existing target, more than one Store at a time, the
+   compressed cache (storeCompressed). *)
+
+Inductive sop :=
+| OMark (sz : N)                 (* cache.markDir(cacheDir, sz) *)
+| ORemoveOld                     (* fs.RemoveAll(cacheDir) *)
+| OPrepare (name : str)          (* storeFile: cache.ensureStoreReady(tmpDir/name) *)
+| OLink (name : str) (sz : N)    (* storeFile: fs.RecursiveLink(out, tmpDir/name) *)
+| ORename.                       (* os.Rename(tmpDir, cacheDir) *)
+
+Definition sum_files (files : list (str * N)) : N := fold_right (fun f a => (snd f + a)%N) 0%N files.
+
+Definition store_file_ops (f : str * N) : list sop := [OPrepare (fst f); OLink (fst f) (snd f)].
+
+Definition store_files_ops (sfb : list store_files_step) (files : list (str * N)) : list sop :=
+  flat_map (fun st => match st with
+                      | SfStoreEach => flat_map store_file_ops files
+                      | SfMarkTotal => [OMark (sum_files files)]
+                      end) sfb.
+
+Definition store_ops_with (sb : list store_step) (sfb : list store_files_step) (files : list (str * N)) : list sop :=
+  flat_map (fun st => match st with
+                      | StMarkEarly => [OMark 0]
+                      | StRemoveOld => [ORemoveOld]
+                      | StStoreFiles => store_files_ops sfb files
+                      | StRenameIntoPlace => [ORename]
+                      end) sb.
+
+(* the Store that is in the source *)
+Definition store_ops : list (str * N) -> list sop := store_ops_with store_body store_files_body.
+
+Definition has_path (live : list item) (q : path) : bool := existsb (fun j => path_eqb (i_path j) q) live.
+
+(* os.MkdirAll(pre/rest): every missing directory from pre downwards is created *)
+Fixpoint mkdirs_from (pre rest : path) (live : list item) : list item :=
+  match rest with
+  | [] => live
+  | x :: r => let d := pre ++ [x] in
+              mkdirs_from d r (if has_path live d then live else live ++ [mkItem d true 0 0])
+  end.
+
+Definition mkdirs (live : list item) (q : path) : list item := mkdirs_from [] q live.
+
+(* MkdirAll(q) fails when a file lies at or above q *)
+Definition file_above (live : list item) (q : path) : bool :=
+  existsb (fun j => negb (i_dir j) && is_prefix (i_path j) q) live.
+
+Definition remove_under (live : list item) (q : path) : list item :=
+  filter (fun j => negb (is_prefix q (i_path j))) live.
+
+(* os.Rename(from, to) of a directory: what was at from/x is at to/x *)
+Definition reroot (from to q : path) : path :=
+  if is_prefix from q then to ++ skipn (length from) q else q.
+
+Definition set_live (x : cstate) (live : list item) : cstate :=
+  mkC (cs_calls x) (cs_queue x) live (cs_total x) (cs_removed x) (cs_kept x).
+
+(* one statement of a Store of the entry p.  `owned`: the files Stores of this process have written and
+   the process has not itself removed or replaced since, where they are now (a ghost, for the theorem) *)
+Definition do_sop (compress : bool) (p : path) (x : cstate) (owned : list path) (o : sop) : cstate * list path :=
+  let tmp := tmp_path compress p in
+  match o with
+  | OMark sz =>
+      (mkC (cs_calls x ++ [(p, sz)]) (cs_queue x) (cs_live x) (cs_total x) (cs_removed x) (cs_kept x), owned)
+  | ORemoveOld =>
+      (set_live x (remove_under (cs_live x) p), filter (fun o => negb (is_prefix p o)) owned)
+  | OPrepare name =>
+      if file_above (cs_live x) tmp then (x, owned)
+      else (set_live x (remove_under (mkdirs (cs_live x) tmp) (tmp ++ [name])),
+            filter (fun o => negb (is_prefix (tmp ++ [name]) o)) owned)
+  | OLink name sz =>
+      if file_above (cs_live x) tmp then (x, owned)
+      else (set_live x (remove_under (mkdirs (cs_live x) tmp) (tmp ++ [name]) ++ [mkItem (tmp ++ [name]) false sz 0]),
+            (tmp ++ [name]) :: filter (fun o => negb (is_prefix (tmp ++ [name]) o)) owned)
+  | ORename =>
+      if has_path (cs_live x) p || negb (has_path (cs_live x) tmp) then (x, owned)
+      else (set_live x (map (fun j => mkItem (reroot tmp p (i_path j)) (i_dir j) (i_size j) (i_atime j)) (cs_live x)),
+            map (reroot tmp p) owned)
+  end.
+
+Record sprog := mkSP { sp_path : path; sp_ops : list sop }.   (* the Store in progress: what is left of it *)
+
+Record pstate := mkP { ps_c : cstate; ps_store : option sprog; ps_owned : list path }.
+
+Inductive plabel :=
+| PMark (p : path) (size : N)               (* the process calls markDir(p, size): Retrieve *)
+| PStore (p : path) (files : list (str * N)) (* the process calls Store for the entry p (ignored while another Store runs) *)
+| PStoreStep                                (* the Store in progress executes its next statement *)
+| PWalk                                     (* clean: the walk, the test against the high water mark, the sort *)
+| PIter.                                    (* clean: the loop body for the next queued entry *)
+
+Definition do_plabel (ops_of : list (str * N) -> list sop) (sorter : list entry -> list entry)
+                     (compress : bool) (high low : N) (x : pstate) (lb : plabel) : pstate :=
+  match lb with
+  | PMark p sz => mkP (do_label compress low (ps_c x) (LMark p sz)) (ps_store x) (ps_owned x)
+  | PIter => mkP (do_label compress low (ps_c x) LIter) (ps_store x) (ps_owned x)
+  | PWalk => mkP (start sorter (mkState compress (cs_live (ps_c x)) (cs_calls (ps_c x)) high low)) (ps_store x) (ps_owned x)
+  | PStore p files =>
+      match ps_store x with
+      | Some _ => x
+      | None => mkP (ps_c x) (Some (mkSP p (ops_of files))) (ps_owned x)
+      end
+  | PStoreStep =>
+      match ps_store x with
+      | None => x
+      | Some sp =>
+          match sp_ops sp with
+          | [] => mkP (ps_c x) None (ps_owned x)
+          | o :: r => let '(c', ow') := do_sop compress (sp_path sp) (ps_c x) (ps_owned x) o in
+                      mkP c' (Some (mkSP (sp_path sp) r)) ow'
+          end
+      end
+  end.
+
+Definition prun (ops_of : list (str * N) -> list sop) (sorter : list entry -> list entry)
+                (compress : bool) (high low : N) (x : pstate) (ls : list plabel) : pstate :=
+  fold_left (do_plabel ops_of sorter compress high low) ls x.
+
+(* the process has just started: clean has not walked yet, no Store runs *)
+Definition pinit (st : state) : pstate := mkP (mkC (st_calls st) [] (st_items st) 0 [] []) None [].
+
+(* the paths the labels pass to markDir / Store *)
+Definition plabel_paths (ls : list plabel) : list path :=
+  flat_map (fun lb => match lb with PMark p _ => [p] | PStore p _ => [p] | _ => [] end) ls.
+
+(* no directory above p is named like an entry *)
+Definition clean_names (p : path) : bool := forallb (fun c => negb (should_clean false c true)) (removelast p).
+
+Definition same_paths (a b : list path) : bool :=
+  Nat.eqb (length a) (length b) && forallb (fun p => existsb (path_eqb p) b) a && forallb (fun p => existsb (path_eqb p) a) b.
+
 (* ---- correspondence cases ---------------------------------------------------------------- *)
 Inductive case :=
 | CName (compress : bool) (name : str) (isdir : bool) (observed : bool)
 | CClean (st : state) (observed_total : N) (observed_listing : list path)
 (* clean ran concurrently with one markDir(p, size) of the process; the harness saw that between klo and
    khi iterations of the loop had started when the mark was set *)
-| CRace (st : state) (klo khi : nat) (p : path) (size : N) (observed_total : N) (observed_listing : list path).
+| CRace (st : state) (klo khi : nat) (p : path) (size : N) (observed_total : N) (observed_listing : list path)
+(* the real Store(p, files) was started on the cache st, stopped inside the RecursiveLink of file number
+   `gate`, clean ran to its end (total and listing observed, the file being copied left out), the Store was
+   let go and ran to its end (second listing).  Listings are compared as sets of paths. *)
+| CStoring (st : state) (p : path) (files : list (str * N)) (gate : nat)
+           (observed_total : N) (listing_after_clean listing_after_store : list path).
 
 Definition check (c : case) : bool :=
   match c with
@@ -434,4 +578,15 @@ Definition check (c : case) : bool :=
                    let x := run (st_compress st) (st_low st) x0 (repeat LIter k ++ LMark p sz :: repeat LIter n) in
                    N.eqb (cs_total x) tot && list_eqb path_eqb (map i_path (cs_live x)) listing)
                 klo (S khi - klo)
+  | CStoring st p files gate tot l1 l2 =>
+      let go := prun store_ops isort (st_compress st) (st_high st) (st_low st) in
+      let n_ops := length (store_ops files) in
+      (* markDir, RemoveAll, two statements per finished file, ensureStoreReady of the file at the gate *)
+      let x1 := go (pinit st) (PStore p files :: repeat PStoreStep (2 + 2 * gate + 1)) in
+      let x2 := go x1 [PWalk] in
+      let x3 := go x2 (repeat PIter (length (cs_queue (ps_c x2)))) in
+      let x4 := go x3 (repeat PStoreStep n_ops) in
+      N.eqb (cs_total (ps_c x3)) tot
+      && same_paths (map i_path (cs_live (ps_c x3))) l1
+      && same_paths (map i_path (cs_live (ps_c x4))) l2
   end.
